@@ -22,12 +22,21 @@ PROPS = {
     "C07": dict(
         engines=[dict(name="arith", quick=700, thorough=40000, shard=500, trivial_tags=[]),
                  dict(name="gateway", quick=200, thorough=10000, shard=25, search=400, trivial_tags=["no-stable-rule"]),
-                 dict(name="ingress", quick=200, thorough=10000, shard=50, search=400, trivial_tags=[])],
+                 dict(name="ingress", quick=200, thorough=10000, shard=50, search=400, trivial_tags=[]),
+                 dict(name="rolloutsm", quick=1200, thorough=60000, shard=400, trivial_tags=["no-change", "status-not-written"]),
+                 dict(name="rolloutbg", quick=800, thorough=40000, shard=400, trivial_tags=["no-change", "status-not-written"]),
+                 dict(name="brexec", quick=600, thorough=30000, shard=400, trivial_tags=["status-unchanged"]),
+                 dict(name="rollouttr", quick=800, thorough=40000, shard=400, trivial_tags=["no-network-write"])],
         rule="as C01 (arith engine): the readiness target DesiredUpdatedReplicas returned by the real CalculateBatchContext is compared with what the knob "
-             "left by the real UpgradeBatch admits",
-        trusted=["exposed(kind, knob, n) as in C01"],
-        assumptions=["steps valid as enforced by admission"],
-        explanation="C07_target_suffices for all n outside three characterised regions, each refuted by a witness and listed as a known finding",
+             "left by the real UpgradeBatch admits; gateway / ingress engines: every provider operation is repeated once (fixed-point probe); rolloutsm / rolloutbg / "
+             "brexec engines (see C02, C11): one real Reconcile per generated state; a reconcile that changed nothing, reported no error and asked for no requeue must be "
+             "in one of the waiting states the theorems name",
+        trusted=["exposed(kind, knob, n) as in C01", "hooks VerifNewReconciler (rollout, batchrelease)",
+                 "Model/Loop.v br_view (how the Rollout side reads the BatchRelease) is compared with the rollout harness's readBR on the object the real BatchRelease reconcile wrote"],
+        assumptions=["steps valid as enforced by admission", "wake-ups: an error is retried by the work queue with back-off; a change of an object's own status or of a watched object "
+                     "(workload, BatchRelease) enqueues its owner -- the event handlers themselves are not modelled"],
+        explanation="C07_target_suffices for all n outside three characterised regions, each refuted by a witness and listed as a known finding; quiet-is-waiting theorems for the "
+                    "Rollout (canary, blue-green) and BatchRelease reconciles and the no-mutual-wait theorem; the same waiting predicates evaluated on real reconciles",
     ),
     "C13": dict(
         engines=[dict(name="gateway", quick=400, thorough=20000, shard=25, search=800, trivial_tags=["no-stable-rule"])],
@@ -290,11 +299,15 @@ MANIFEST_TEXT = {
              "history theorem. exposed() for external workload controllers is assumed. Known finding F12 (mixed int/percent partition Deployment).",
         design_ref="DESIGN.md section 9, C01"),
     "C07": dict(
-        text="Proof (fixed-point/arithmetic layer): the update target always suffices for the readiness criterion, proved for all kinds, steps and n "
-             "outside three exactly characterised regions that are refuted by witnesses and listed as known findings (F1, F12, F21). Provider fixed "
-             "points are served by the C13/C14/C15 engines.",
-        note="Partial: termination of the whole healthy rollout (fair schedules, wake-ups) is not proved; it is outside what the current model carries. "
-             "exposed() assumed.",
+        text="Proof, in three layers. (1) Arithmetic: the update target always suffices for the readiness criterion, proved for all kinds, steps and n "
+             "outside three exactly characterised regions that are refuted by witnesses and listed as known findings (F1, F12, F21). (2) Wake-ups: for the "
+             "Rollout reconcile (canary and blue-green) and the BatchRelease reconcile, for EVERY persisted state and observation, a reconcile that changes "
+             "nothing, reports no error and asks for no requeue happens only while the next move is somebody else's (workload missing/lagging, this step's "
+             "BatchRelease not yet Ready, a pause without duration, spec.paused, a Ready batch held by batchPartition, Completed); and the two controllers "
+             "never wait for each other (C07_no_mutual_wait). The same predicates are evaluated on real reconciles. (3) Provider fixed points: second-call "
+             "probes in the gateway / ingress engines (theorems under C13-C15).",
+        note="Partial: deadlock-freedom and local progress are proved, a ranking function for the whole healthy rollout (a bound on the number of reconciles over fair "
+             "schedules) is not; reconciles with traffic routing are covered by the clause on the implementation only. exposed() assumed.",
         design_ref="DESIGN.md section 9, C07"),
     "C13": dict(
         text="Proof: for every rule list, weight, match list (any mix/order of path, header, query matchers), every request and every value-comparison "
